@@ -36,7 +36,19 @@ def membership_sites(prog, pv, pv_local=None):
                 j = 1 - i
                 if roots[i] and tsets[j] and not roots[j]:
                     tf = term_fields(lsides[j])
-                    out.append({"body": b, "term": t, "root": sorted(roots[i])[0], "inclusive": "id" in tf, "fields": sorted(tf & {"all_parents", "parents", "id", "children"})})
+                    incl = "id" in tf
+                    fields = sorted(tf & {"all_parents", "parents", "id", "children"})
+                    if not incl:
+                        # the term's own id tested separately:  `root == term.id() || term.all_parents().contains(&root)`
+                        for ebi, et in b.calls():
+                            if et.callee.trait == "std::cmp::PartialEq" and et.callee.method in ("eq", "ne") and len(et.args) == 2:
+                                es = [pv.of_operand(b, a) for a in et.args]
+                                er = [field_names(x, "::Ontology") & {"modifier", "categories"} for x in es]
+                                ei = ["id" in term_fields(x) for x in (pv_local.of_operand(b, a) if pv_local is not None else pv.of_operand(b, a) for a in et.args)]
+                                if (er[0] and ei[1]) or (er[1] and ei[0]):
+                                    incl = True
+                                    fields = sorted(set(fields) | {"id (compared separately)"})
+                    out.append({"body": b, "term": t, "root": sorted(roots[i])[0], "inclusive": incl, "fields": fields})
                     break
     return out
 
@@ -182,3 +194,52 @@ def termid_display_width(prog):
     if len(args) == 1 and args[0].get("width"):
         return args[0]["width"]
     return None
+
+
+def subtractions(prog, pv, pvn, body, depth=0):
+    """set subtractions A \\ B computed in `body`:  A.difference(&B) | A.iter().filter(|x| !B.contains(x)) | a loop over A that pushes
+    x under the negative edge of B.contains(x) | a call of a private helper that does one of these with its two parameters.
+    returns {call-or-site block: dict(A (atoms), B (atoms), pol (-1 subtraction, +1 intersection, None), line)}"""
+    from engines import bool_polarity, for_loops, positive_edges
+    out = {}
+    for bi, t in body.calls():
+        c = t.callee
+        if c.method == "difference" and len(t.args) == 2:
+            out[bi] = {"A": pv.of_operand(body, t.args[0]), "B": pv.of_operand(body, t.args[1]), "pol": -1, "line": t.line}
+        elif c.trait == "std::iter::Iterator" and c.method == "filter" and len(t.args) == 2:
+            cb = prog.bodies.get(pv.closure_of_operand(body, t.args[1]) or "")
+            if cb is None:
+                continue
+            cont = [(cbi, ct) for cbi, ct in cb.calls() if ct.callee.method == "contains"]
+            if len(cont) != 1:
+                continue
+            pol, _ = bool_polarity(cb, pvn, lambda c2: c2.method == "contains")
+            out[bi] = {"A": pv.of_operand(body, t.args[0]), "B": pv.of_operand(cb, cont[0][1].args[0]), "pol": pol, "line": t.line}
+        else:
+            tg = prog.bodies.get(c.res) if c.res else None
+            if tg is not None and depth == 0 and tg.kind in ("Fn", "AssocFn") and tg.file == body.file and len(t.args) == 2 and tg.id != body.id:
+                inner = subtractions(prog, pv, pvn, tg, depth + 1)
+                from prov import params_of
+                shapes = []
+                for k, v in inner.items():
+                    pa, pb = params_of(v["A"], tg.id), params_of(v["B"], tg.id)
+                    if len(pa) == 1 and len(pb) == 1 and pa != pb and pa | pb == {1, 2}:
+                        shapes.append((next(iter(pa)), next(iter(pb)), v["pol"]))
+                if len(shapes) == 1:
+                    a_i, b_i, pol = shapes[0]
+                    out[bi] = {"A": pv.of_operand(body, t.args[a_i - 1]), "B": pv.of_operand(body, t.args[b_i - 1]), "pol": pol, "line": t.line, "helper": tg.short}
+    # loop form
+    for lp in for_loops(body):
+        conts = [(bi, t) for bi, t in body.calls() if bi in lp["blocks"] and t.callee.method == "contains" and len(t.args) == 2]
+        pushes = [(bi, t) for bi, t in body.calls() if bi in lp["blocks"] and t.callee.method in ("push", "insert") and len(t.args) == 2]
+        if len(conts) != 1 or len(pushes) != 1:
+            continue
+        cbi, ct = conts[0]
+        pbi, pt = pushes[0]
+        pos = positive_edges(body, pvn, cbi)
+        on_pos = any(body.edge_dominates(e, pbi) for e in pos)
+        neg = [(sb, y) for sb, _ in pos for y in body.succ[sb] if (sb, y) not in pos]
+        on_neg = any(body.edge_dominates(e, pbi) for e in neg)
+        pol = 1 if on_pos and not on_neg else -1 if on_neg and not on_pos else None
+        out[lp["header"]] = {"A": pv.of_operand(body, lp["iter"]), "B": pv.of_operand(body, ct.args[0]), "pol": pol, "line": ct.line}
+    return out
